@@ -54,7 +54,7 @@ func (d *slidingWindowDetector) Check(seq uint64) (func() bool, bool) {
 	}
 
 	return func() bool {
-		latest := seq == 0
+		latest := seq == 0 && d.latestSeq == 0
 		if seq > d.latestSeq {
 			// Update the head of the window.
 			d.mask.Lsh(uint(seq - d.latestSeq))
